@@ -93,6 +93,7 @@ structure MInv (n0 : Nat) (st : MinSt) (it : It) : Prop where
 /-- what holds when a candidate is about to be built -/
 structure AInv (n0 : Nat) (st : MinSt) (it : It) : Prop extends MInv n0 st it where
   ce1 : 1 ≤ st.chunkEnd
+  edge : st.chunkEnd - (st.chunkSize : Int) < 0 → st.chunkEnd = (it.best.len : Int)
 
 def phi (n0 : Nat) (st : MinSt) (it : It) : Nat :=
   (it.best.len + Nat.log2 st.chunkSize + (if st.removed then 1 else 0)) * (n0 + 1) + st.chunkEnd.toNat
@@ -154,7 +155,7 @@ theorem roundPhase_spec (cfg : Cfg) (clk : Clock) (stopAt : Option Nat) (n0 : Na
           injection h' with h'; injection h' with h1 h2
           subst h1; subst h2
           obtain ⟨e1, e2, e3, e4, e5⟩ := roundDecision_spec cfg st st1 it.best.len h.cs h.mc hrd
-          refine ⟨rfl, ⟨⟨h.wf, e3, by rw [e4]; exact h.mc, by rw [e1]; exact Int.le_refl _, h.len⟩, by rw [e1]; omega⟩, ?_, e4⟩
+          refine ⟨rfl, ⟨⟨h.wf, e3, by rw [e4]; exact h.mc, by rw [e1]; exact Int.le_refl _, h.len⟩, by rw [e1]; omega, fun _ => e1⟩, ?_, e4⟩
           -- the measure does not grow over a round end
           unfold phi
           rw [e1, e2]
@@ -177,7 +178,38 @@ theorem roundPhase_spec (cfg : Cfg) (clk : Clock) (stopAt : Option Nat) (n0 : Na
       intro st' it' h'
       injection h' with h'; injection h' with h1 h2
       subst h1; subst h2
-      exact ⟨rfl, ⟨h, by have := h.cs; omega⟩, Nat.le_refl _, rfl⟩
+      exact ⟨rfl, ⟨h, by have := h.cs; omega, fun hneg => absurd hneg hre⟩, Nat.le_refl _, rfl⟩
+
+/-- when the first half continues, it either left the state alone (not a round end, and then
+`chunk_end - chunk_size ≥ 0`) or applied the round decision to the unchanged iterator -/
+theorem roundPhase_inr (cfg : Cfg) (clk : Clock) (stopAt : Option Nat) (st st' : MinSt) (it it' : It)
+    (hr : roundPhase cfg clk stopAt id st it = .inr (st', it')) :
+    it' = it ∧ deadlinePassed stopAt clk it = false ∧
+    ((st' = st ∧ ¬ (st.chunkEnd - (st.chunkSize : Int) < 0)) ∨
+     (st.chunkEnd - (st.chunkSize : Int) < 0 ∧ it.best.len ≠ 0 ∧ roundDecision cfg st it.best.len = some st')) := by
+  unfold roundPhase at hr
+  by_cases hd : deadlinePassed stopAt clk it = true
+  · simp [hd] at hr
+  · have hd' : deadlinePassed stopAt clk it = false := by simpa using hd
+    simp only [hd, Bool.false_eq_true, if_false] at hr
+    by_cases hre : st.chunkEnd - (st.chunkSize : Int) < 0
+    · simp only [hre, decide_true, if_true] at hr
+      by_cases h0 : (it.best.len == 0) = true
+      · simp [h0] at hr
+      · simp only [h0, Bool.false_eq_true, if_false, id] at hr
+        have hlen : it.best.len ≠ 0 := by simpa using h0
+        cases hrd : roundDecision cfg st it.best.len with
+        | none => rw [hrd] at hr; simp at hr
+        | some st1 =>
+          rw [hrd] at hr
+          simp only [Sum.inr.injEq, Prod.mk.injEq] at hr
+          obtain ⟨h1, h2⟩ := hr
+          subst h1; subst h2
+          exact ⟨rfl, hd', Or.inr ⟨hre, hlen, rfl⟩⟩
+    · simp only [hre, decide_false, Bool.false_eq_true, if_false, Sum.inr.injEq, Prod.mk.injEq] at hr
+      obtain ⟨h1, h2⟩ := hr
+      subst h1; subst h2
+      exact ⟨rfl, hd', Or.inl ⟨rfl, hre⟩⟩
 
 /-- second half of an iteration -/
 theorem attempt_spec (o : Oracle) (n0 : Nat) (st : MinSt) (it : It) (h : AInv n0 st it) :
@@ -198,17 +230,17 @@ theorem attempt_spec (o : Oracle) (n0 : Nat) (st : MinSt) (it : It) (h : AInv n0
   obtain ⟨c1, -, -, -, c5⟩ := rmslice_int it.best h.wf _ _ hs0 hse hce
   obtain ⟨f1, f2, -, -⟩ := try_flags it o (it.best.rmslice (max 0 (st.chunkEnd - st.chunkSize)) st.chunkEnd)
     (fun r => { tag := 0, lo := (max 0 (st.chunkEnd - (st.chunkSize : Int))).toNat, hi := st.chunkEnd.toNat,
-                size := st.chunkSize, bestLen := it.best.len,
+                size := st.chunkSize, bestLen := it.best.len, base := it.best, tIdx := it.nTests,
                 cand := it.best.rmslice (max 0 (st.chunkEnd - st.chunkSize)) st.chunkEnd, resp := r })
   have hspec := try_spec it o (it.best.rmslice (max 0 (st.chunkEnd - st.chunkSize)) st.chunkEnd)
     (fun r => { tag := 0, lo := (max 0 (st.chunkEnd - (st.chunkSize : Int))).toNat, hi := st.chunkEnd.toNat,
-                size := st.chunkSize, bestLen := it.best.len,
+                size := st.chunkSize, bestLen := it.best.len, base := it.best, tIdx := it.nTests,
                 cand := it.best.rmslice (max 0 (st.chunkEnd - st.chunkSize)) st.chunkEnd, resp := r })
   unfold attempt
   simp only
   generalize hT : It.try it o (it.best.rmslice (max 0 (st.chunkEnd - st.chunkSize)) st.chunkEnd)
     (fun r => { tag := 0, lo := (max 0 (st.chunkEnd - (st.chunkSize : Int))).toNat, hi := st.chunkEnd.toNat,
-                size := st.chunkSize, bestLen := it.best.len,
+                size := st.chunkSize, bestLen := it.best.len, base := it.best, tIdx := it.nTests,
                 cand := it.best.rmslice (max 0 (st.chunkEnd - st.chunkSize)) st.chunkEnd, resp := r }) = T at *
   obtain ⟨r, it2⟩ := T
   simp only at hspec f1 f2
@@ -279,5 +311,79 @@ theorem minLoop_bound (cfg : Cfg) (o : Oracle) (clk : Clock) (stopAt : Option Na
       obtain ⟨a1, a2, a3, a4, a5, -, -⟩ := attempt_spec o n0 st1 it1 e2
       obtain ⟨b1, b2, b3⟩ := ih _ _ a1 (by omega)
       exact ⟨by rw [b1, a4], by rw [b2, a5], by omega⟩
+
+/-- every invariant of the two half-iterations (`P` at the top of an iteration, `P'` between the
+round phase and the attempt) holds of some loop state that agrees with the final result on
+everything observable (fuel exhaustion included: it only sets a flag) -/
+theorem minLoop_reach2 (cfg : Cfg) (o : Oracle) (clk : Clock) (stopAt : Option Nat) (n0 : Nat)
+    (P P' : MinSt → It → Prop)
+    (hround : ∀ st it st', MInv n0 st it → P st it →
+      roundPhase cfg clk stopAt id st it = .inr (st', it) → P' st' it)
+    (hatt : ∀ st it, AInv n0 st it → P' st it → P (attempt o st it).1 (attempt o st it).2) :
+    ∀ (fuel : Nat) (st : MinSt) (it : It), MInv n0 st it → P st it →
+      ∃ st' it', MInv n0 st' it' ∧ P st' it' ∧
+        (minLoop cfg o clk stopAt id fuel st it).best = it'.best ∧
+        (minLoop cfg o clk stopAt id fuel st it).atts = it'.atts ∧
+        (minLoop cfg o clk stopAt id fuel st it).tried = it'.tried ∧
+        (minLoop cfg o clk stopAt id fuel st it).nTests = it'.nTests := by
+  intro fuel
+  induction fuel with
+  | zero => intro st it hi hp; exact ⟨st, it, hi, hp, rfl, rfl, rfl, rfl⟩
+  | succ f ih =>
+    intro st it hinv hp
+    unfold minLoop minStep
+    obtain ⟨r1, r2⟩ := roundPhase_spec cfg clk stopAt n0 st it hinv
+    cases hrp : roundPhase cfg clk stopAt id st it with
+    | inl it' =>
+      obtain ⟨e1, e2, -, -, e5, e6⟩ := r1 it' hrp
+      exact ⟨st, it, hinv, hp, e1, e5, e6, e2⟩
+    | inr p =>
+      obtain ⟨st1, it1⟩ := p
+      obtain ⟨e1, e2, -, -⟩ := r2 st1 it1 hrp
+      subst e1
+      simp only
+      obtain ⟨a1, -⟩ := attempt_spec o n0 st1 it1 e2
+      exact ih _ _ a1 (hatt st1 it1 e2 (hround st it1 st1 hinv hp hrp))
+
+/-- exit form: with enough fuel the loop ends through one of the `break`/`return` exits of the
+round phase, in a state where the invariant `P` held -/
+theorem minLoop_exit (cfg : Cfg) (o : Oracle) (clk : Clock) (stopAt : Option Nat) (n0 : Nat)
+    (P : MinSt → It → Prop) (Q : It → Prop)
+    (hround : ∀ st it st', MInv n0 st it → P st it →
+      roundPhase cfg clk stopAt id st it = .inr (st', it) → P st' it)
+    (hatt : ∀ st it, AInv n0 st it → P st it → P (attempt o st it).1 (attempt o st it).2)
+    (hdone : ∀ st it it', MInv n0 st it → P st it →
+      roundPhase cfg clk stopAt id st it = .inl it' → Q it') :
+    ∀ (fuel : Nat) (st : MinSt) (it : It), MInv n0 st it → P st it → phi n0 st it < fuel →
+      Q (minLoop cfg o clk stopAt id fuel st it) := by
+  intro fuel
+  induction fuel with
+  | zero => intro st it _ _ h; omega
+  | succ f ih =>
+    intro st it hinv hp hphi
+    unfold minLoop minStep
+    obtain ⟨r1, r2⟩ := roundPhase_spec cfg clk stopAt n0 st it hinv
+    cases hrp : roundPhase cfg clk stopAt id st it with
+    | inl it' => exact hdone st it it' hinv hp hrp
+    | inr p =>
+      obtain ⟨st1, it1⟩ := p
+      obtain ⟨e1, e2, e3, -⟩ := r2 st1 it1 hrp
+      subst e1
+      simp only
+      obtain ⟨a1, a2, -⟩ := attempt_spec o n0 st1 it1 e2
+      exact ih _ _ a1 (hatt st1 it1 e2 (hround st it1 st1 hinv hp hrp)) (by omega)
+
+theorem minLoop_reach (cfg : Cfg) (o : Oracle) (clk : Clock) (stopAt : Option Nat) (n0 : Nat)
+    (P : MinSt → It → Prop)
+    (hround : ∀ st it st', MInv n0 st it → P st it →
+      roundPhase cfg clk stopAt id st it = .inr (st', it) → P st' it)
+    (hatt : ∀ st it, AInv n0 st it → P st it → P (attempt o st it).1 (attempt o st it).2) :
+    ∀ (fuel : Nat) (st : MinSt) (it : It), MInv n0 st it → P st it →
+      ∃ st' it', MInv n0 st' it' ∧ P st' it' ∧
+        (minLoop cfg o clk stopAt id fuel st it).best = it'.best ∧
+        (minLoop cfg o clk stopAt id fuel st it).atts = it'.atts ∧
+        (minLoop cfg o clk stopAt id fuel st it).tried = it'.tried ∧
+        (minLoop cfg o clk stopAt id fuel st it).nTests = it'.nTests :=
+  minLoop_reach2 cfg o clk stopAt n0 P P hround hatt
 
 end Strat
